@@ -117,6 +117,36 @@ func NewRun(id, tier string, budget time.Duration) *Run {
 		Deadline: time.Now().Add(budget), Verif: verif, Repo: repo, vios: map[string]*Violation{}}
 }
 
+// Progress is bumped by checks whose work happens in subprocesses (so that the stall guard sees them advance).
+var Progress atomic.Int64
+
+// StartStallGuard ends the process with exit status 2 (no verdict) when no sub-check has evaluated anything for the
+// given time: the library under test did not return from a call (which is a matter for C01) or the check itself is
+// stuck; either way this run cannot produce a verdict about its own property and must not block whoever started it.
+func (r *Run) StartStallGuard(limit time.Duration) {
+	go func() {
+		var last int64 = -1
+		since := time.Now()
+		for {
+			time.Sleep(2 * time.Second)
+			sum := Progress.Load()
+			r.mu.Lock()
+			for _, s := range r.subs {
+				sum += s.Evals.Load() + s.States.Load() + s.Transitions.Load()
+			}
+			r.mu.Unlock()
+			if sum != last {
+				last, since = sum, time.Now()
+				continue
+			}
+			if time.Since(since) > limit {
+				fmt.Printf("NO-VERDICT: %s made no progress for %s (a call into the library did not return, or the check is stuck); aborting without a verdict\n", r.ID, limit)
+				os.Exit(2)
+			}
+		}
+	}()
+}
+
 // Quick reports whether this is the quick tier.
 func (r *Run) Quick() bool { return r.Tier != "thorough" }
 
